@@ -65,8 +65,14 @@ Init == \/ /\ kind = "rand" /\ fset \in {<<r>> : r \in 1..NRand} /\ fsz = <<>>
         \/ /\ kind = "set"
            /\ \E n \in 0..MaxFiles : fset \in Seqs(1..Len(Pool), n) /\ fsz \in Seqs(Sizes, n)
            /\ Distinct(fset)
+        \/ /\ kind = "missing" /\ ~Big /\ fset \in {<<1, 0>>, <<3, 1>>, <<9, 1>>} /\ fsz = <<>>
         \/ /\ kind = "self" /\ ~Big
            /\ fset \in {<<vo, vi, extra>> : vo \in 1..Len(OutVariants), vi \in 1..Len(OutVariants), extra \in {1, 3}} /\ fsz = <<>>
+\* an input that does not exist: refused (the inputs are opened before the output is), the existing output untouched
+MissingScenario(extra, first) ==
+  LET other == Member(extra, 3, 1)  miss == <<109, 105, 115, 115>>
+  IN << Put(Pool[extra], other.data), Put(OutName, << Lit(<<1, 2, 3>>) >>),
+        VolCreate(OutName, IF first THEN << miss, Pool[extra] >> ELSE << Pool[extra], miss >>, "refuse"), FileEq(OutName, << Lit(<<1, 2, 3>>) >>), FileEq(Pool[extra], other.data) >>
 Next == UNCHANGED vars
 Spec == Init /\ [][Next]_vars
 Members == IF kind = "rand" THEN RandMembers(fset[1]) ELSE [i \in 1..Len(fset) |-> Member(fset[i], fsz[i], i)]
@@ -77,6 +83,7 @@ SortedAscending == kind \in {"set", "rand"} => LET s == SortCI(Members) IN
                      /\ Len(s) = Len(Members) /\ \A i \in 1..(Len(s) - 1) : ~Less(s[i + 1].name, s[i].name)
                      /\ \A m \in {Members[i] : i \in 1..Len(Members)} : \E j \in 1..Len(s) : s[j] = m
 Export == IF kind = "rand" THEN (LET sc == ScenarioOf(RandMembers(fset[1]), RandPaths(fset[1])) IN sc # <<>> => PrintT("S|" \o ToJson([id |-> <<"rand", Seed, fset[1]>>, steps |-> sc])))
+          ELSE IF kind = "missing" THEN PrintT("S|" \o ToJson([id |-> <<"missing", fset>>, steps |-> MissingScenario(fset[1], fset[2] = 1)]))
           ELSE IF kind = "self" THEN PrintT("S|" \o ToJson([id |-> <<"self", fset>>, steps |-> SelfScenario(fset[1], fset[2], fset[3])]))
           ELSE LET n == Len(fset)
                    \* one spelling vector per (fset, fsz), rotating through the directories
